@@ -143,6 +143,66 @@ def targeted():
     return out
 
 
+def targeted_bounded_arrays():
+    """Deterministic stream: byte[N], byte[<=N], utf8[<=N], uint8[N] arrays as first / middle / last member of a delimited
+    composite - top level with header, nested as a field, as an array element, as a union variant - with delimiter headers that
+    announce payloads ending before / in the middle of / exactly at the end of the array and at the end of the object; the
+    announced payload is always followed by NON-ZERO bytes (sibling fields, the next element's header, trailing junk), so that a
+    read which ignores the bound of the sub-reader is visible.  All fields are byte aligned; byte strings are written by hand."""
+    out = []
+    nid = [2500]
+
+    def St(fields):
+        nid[0] += 1
+        return ["struct", nid[0], [["f%d" % i, ft] for i, ft in enumerate(fields)]]
+
+    def Un(fields):
+        nid[0] += 1
+        return ["union", nid[0], [["v%d" % i, ft] for i, ft in enumerate(fields)]]
+
+    def De(inner, extra=0):
+        return ["delim", inner, S.max_len(inner) + extra]
+
+    N = 4
+    arrays = [
+        (["fix", ["byte"], N], [], [0xB1, 0xB2, 0xB3, 0xB4]),
+        (["var", ["byte"], N], [N], [0xB1, 0xB2, 0xB3, 0xB4]),
+        (["var", ["utf8"], N], [N], [0x61, 0x62, 0x63, 0x64]),
+        (["fix", ["u", 8, "s"], N], [], [0x91, 0x92, 0x93, 0x94]),
+    ]
+    junk = [0xE1, 0xE2, 0xE3, 0xE4, 0xE5, 0xE6]
+    for arr, prefix, elems in arrays:
+        for pos in ("first", "middle", "last"):
+            head = [0x11] if pos in ("middle", "last") else []
+            tail = [0x77] if pos in ("first", "middle") else []
+            fields = ([["u", 8, "s"]] if head else []) + [arr] + ([["u", 8, "s"]] if tail else [])
+            full = head + prefix + elems + tail
+            s0 = len(head) + len(prefix)          # first element of the array
+            e0 = s0 + len(elems)                  # one past its last element
+            cuts = sorted({max(s0 - 1, 0), s0, s0 + 1, s0 + 2, e0 - 1, e0, len(full)})
+            d = De(St(fields), 16)
+
+            def hdr(n):
+                return list(int(n).to_bytes(4, "little"))
+
+            for h in cuts:
+                body = hdr(h) + full[:h]
+                # top level, with header
+                out.append(mk_case(d, True, ["raw", body + junk]))
+                # nested as a field between two siblings
+                out.append(mk_case(St([["u", 8, "s"], d, ["u", 16, "s"]]), False, ["raw", [0x21] + body + [0xC1, 0xC2] + junk]))
+                # as the first of two array elements (the second one complete), followed by a sibling
+                out.append(mk_case(St([["var", d, 2], ["u", 8, "s"]]), False, ["raw", [2] + body + hdr(len(full)) + full + [0xC3] + junk]))
+                out.append(mk_case(St([["fix", d, 2], ["u", 8, "s"]]), False, ["raw", hdr(len(full)) + full + body + [0xC4] + junk]))
+                # as a union variant
+                out.append(mk_case(Un([["bool"], d]), False, ["raw", [1] + body + junk]))
+                # inside another delimited object whose own header is exact
+                inner_obj = [0x31] + body + [0x32]
+                out.append(mk_case(St([De(St([["u", 8, "s"], d, ["u", 8, "s"]]), 0), ["u", 8, "s"]]), False,
+                                   ["raw", hdr(len(inner_obj)) + inner_obj + [0xC5] + junk]))
+    return out
+
+
 def gen_family(rng, tier, out):
     """One (type, value) with a family of hostile variants."""
     ctx = S.Ctx(rng, max_cap=8 if tier == "quick" else 16)
@@ -186,7 +246,7 @@ def gen_family(rng, tier, out):
 
 
 def generate(rng, tier):
-    cases = targeted()
+    cases = targeted() + targeted_bounded_arrays()
     streams = ["targeted"] * len(cases)
     n = 800 if tier == "quick" else 6000
     fam = []
